@@ -1,5 +1,6 @@
 import OpcuaModel.Model.Session
 import OpcuaModel.Gen.SessionFacts
+import OpcuaModel.Model.ReconnectSession
 /-
   C22 — a session is established only after the server proves its identity.
 
@@ -195,6 +196,58 @@ theorem C22_nopanic_repaired (f : CodeFacts) (hf : f.nilRepaired = true) (hr : f
 /-- … and `Connect` does not panic for any server behaviour in any mode -/
 theorem C22_nopanic (m : Mode) (s : Server) : (connect Gen.sessionFacts m s).outcome ≠ .panic :=
   C22_nopanic_repaired Gen.sessionFacts (by decide) (by decide) m s
+
+/-! ### the reconnect path (C22 composed into the C25 LTS) -/
+
+/-- RECONNECT inherits C22: when the monitor goroutine re-creates the session
+    (`recreateSession`) and the server's signature does not verify, the action
+    ends in an error (next action: createSecureChannel), the client holds no
+    session, sent no ActivateSessionRequest and did not panic — for every
+    server behaviour, both signed modes, on the working tree. -/
+theorem C22_reconnect_reject (m : Mode) (s : Server) (hm : m ≠ .none) (h : ¬ sigValid s) :
+    ReconnectSession.recreateSession Gen.sessionFacts m s = ⟨.retry, false, false⟩ := by
+  have hv := verify_ne_ok Gen.sessionFacts m s hm h
+  have hp := verify_panic_iff Gen.sessionFacts m s
+  unfold ReconnectSession.recreateSession
+  generalize verifySessionSignature Gen.sessionFacts m s = v at hv hp
+  generalize updateNamespaces s = ns
+  generalize s.create = cr
+  generalize s.activate = ac
+  have hf : Gen.sessionFacts.rsaAssertChecked = true := by decide
+  cases v <;> simp [hf] at hv hp <;> cases cr <;> cases ac <;> cases ns <;> decide
+
+/-- … and a genuine server gets its session back -/
+theorem C22_reconnect_accept (m : Mode) (s : Server) (hv : sigValid s)
+    (hc : s.create = .ok) (ha : s.activate = .ok) (hn : s.nsRead = .ok) (hs : s.nsIsStrings = true) :
+    ReconnectSession.recreateSession Gen.sessionFacts m s = ⟨.session, true, true⟩ := by
+  have hns : updateNamespaces s = true := by simp [updateNamespaces, hn, hs]
+  simp only [ReconnectSession.recreateSession, verify_ok Gen.sessionFacts m s hv, hc, ha, hns]
+  decide
+
+/-- the result of the action is a branch of the C25 LTS at `recreate1` (so the
+    lifecycle theorems of C25 apply to it), and after a rejected signature that
+    branch is "no session, recreate the secure channel": the client keeps
+    reconnecting and cannot report `Connected` before a later successful
+    CreateSession -/
+theorem C22_reconnect_is_lts_step (m : Mode) (s : Server) (st : ConnLts.St) (hp : st.mpc = .recreate1)
+    (hnp : (ReconnectSession.recreateSession Gen.sessionFacts m s).outcome ≠ .panic) :
+    ∃ st', ReconnectSession.ltsTarget st (ReconnectSession.recreateSession Gen.sessionFacts m s) = some st' ∧
+      st' ∈ ConnLts.tau st := by
+  rcases st with ⟨upc, mpc, cl, ca, sess, last, auto, hooks, fa, stl⟩
+  simp only at hp; subst hp
+  generalize hr : ReconnectSession.recreateSession Gen.sessionFacts m s = r at hnp
+  rcases r with ⟨o, hs, sent⟩
+  cases o
+  · -- session: hasSession is true by construction
+    have : hs = true := by
+      unfold ReconnectSession.recreateSession at hr
+      revert hr
+      repeat' split
+      all_goals (intro hr; simp at hr; try exact hr.1)
+    subst this
+    exact ⟨_, rfl, by cases hooks <;> simp [ConnLts.tau, ConnLts.monHidden]⟩
+  · cases hs <;> exact ⟨_, rfl, by cases hooks <;> simp [ConnLts.tau, ConnLts.monHidden]⟩
+  · simp at hnp
 
 /-- non-vacuity: there are behaviours with a valid and with an invalid signature,
     and the as-is model accepts the former -/
